@@ -14,7 +14,7 @@ from lib import tlc, build, tracev
 from lib.ctx import MachineryError
 from harness.mt import mtlib
 
-QUICK_MC = ["err1", "badhdr2", "direct", "direrr", "trunc2", "memtight", "ff_trunc"]
+QUICK_MC = ["err1", "badhdr2", "direct", "direrr", "trunc2", "memtight"]
 ALL_MC = ["ok", "err2", "err1", "badhdr", "badhdr2", "direct", "direrr", "empty", "trunc", "trunc2", "badtail",
           "spur", "timeout", "ff_err", "ff_trunc", "memtight"]
 
